@@ -15,6 +15,7 @@ LEVEL_TEXT["C08"] = (
     "(polyphase tables, multi-call outputs with rejected frames in between, delay()/rates, resample with explicit h, next/prev_size, simplify). "
     "Measured only: rounding (implementation vs long-double textbook chain <= 1e-12 relative), the alignment of resample (least-squares lag on a "
     "slow tone, a sweep and a two-tone signal <= 1 output sample for all reduced p,q <= 16 and the audio ratios) and its band-limited accuracy."
+    " REGENERATED TIE (Props/C08Gen): IResampler::polyphase, zeropad, the constructors of FIRInterpolator / FIRDecimator / FIRRateConverter (incl. the branch / offset schedule loop) and their whole frame-level process (guard, memcpy hand-over, nested loops) are translated from the C++ on every run and proved equal to the models (polyphase_eq, fir*Ctor_eq, fir*Process_eq); T08.2 / T08.3 / T08.5 are restated from the generated constructor through the generated process (gen_interp_from_ctor, gen_decim_from_ctor, gen_rateconv_from_ctor). "
 )
 
 PROPS["C08"] = {
